@@ -166,8 +166,10 @@ class StdVector(Plugin):
             lc = unit.spec.get(('loop', h, 1)); ent = unit.spec.get(('ghost', h, 'entry')) or ''
             for k in (('loop', h, 1), ('ghost', h, 'entry')):
                 if k in unit.spec: unit.used_keys.add(k)
-            body = '  size_t n = (size_t)(last - first), i = 0;\n  %s\n  for (; i < n; ++i)\n%s  {\n    if (%s) return first + i;\n  }\n  return last;\n' % (
-                ent, ''.join('  ' + l + '\n' for l in lc.strip('\n').split('\n')) if lc else '', test)
+            it = unit.spec.get(('ghost', h, 'iter')) or ''
+            if ('ghost', h, 'iter') in unit.spec: unit.used_keys.add(('ghost', h, 'iter'))
+            body = '  size_t n = (size_t)(last - first), i = 0;\n  %s\n  for (; i < n; ++i)\n%s  {\n    %s\n    if (%s) return first + i;\n  }\n  return last;\n' % (
+                ent, ''.join('  ' + l + '\n' for l in lc.strip('\n').split('\n')) if lc else '', it, test)
             unit.add_helper(h, proto, proto + '\n{\n' + body + '}\n')
             return '%s(%s)' % (h, ', '.join([unit.expr(args[0]), unit.expr(args[1])] + largs))
         if name == 'remove_if' and len(args) == 3 and self.node_iter(args[0]):
@@ -516,11 +518,17 @@ class Chrono(Plugin):
 class OpaqueTypes(Plugin):
     """library types the unit only stores (never looks into): one-byte structs.  patterns: {regex over the canonical C++ type: C struct name}"""
     def __init__(self, patterns):
-        self.patterns = dict(patterns); self.names = set('struct ' + v for v in self.patterns.values())
+        self.patterns = dict(patterns); self.names = set('struct ' + v for v in self.patterns.values() if not v.startswith('long:'))
     def type_for(self, name, unit):
         q = canon_type(name)
         for rx, cn in self.patterns.items():
             if re.match(rx, q):
+                if cn.startswith('long:'):
+                    # an opaque position (iterator): a plain scalar
+                    nm = cn[len('long:'):]
+                    if '~' + nm not in unit.emitted_types:
+                        unit.emitted_types['~' + nm] = 'typedef long %s;' % nm; unit.type_order.append('~' + nm)
+                    return nm
                 if '~' + cn not in unit.emitted_types:
                     unit.emitted_types['~' + cn] = 'struct %s { char opaque; };' % cn; unit.type_order.append('~' + cn)
                 return 'struct ' + cn
@@ -560,6 +568,14 @@ class OpaqueTypes(Plugin):
         # iterators of opaque containers are scalars (opaque positions): only (in)equality is supported
         if rd.get('name') in ('operator!=', 'operator==') and len(args) == 2 and all(self._scalar_it(unit, a) for a in args):
             return '(%s %s %s)' % (unit.expr(args[0]), rd['name'][-2:], unit.expr(args[1]))
+        if rd.get('name') == 'operator->' and len(args) == 1 and self._scalar_it(unit, args[0]):
+            return 'v_map_it_deref(%s)' % unit.expr(args[0])
+        return None
+    def member_access(self, unit, n, base_text):
+        # it->second of an opaque map iterator: the mapped value lives behind a stub `<T> *v_map_it_second(it)`
+        if n.get('name') == 'second' and base_text.startswith('v_map_it_deref('):
+            unit.count_call('v_map_it_second')
+            return '(*v_map_it_second(%s))' % base_text[len('v_map_it_deref('):-1]
         return None
     def _scalar_it(self, unit, node):
         t = node.get('type', {})
